@@ -38,6 +38,7 @@ const (
 	stateHeaderOverLF
 	stateBodyChunkSizeBefore
 	stateBodyChunkSize
+	stateBodyChunkExt
 	stateBodyChunkSizeLF
 	stateBodyChunkData
 	stateBodyChunkDataCR
